@@ -51,6 +51,8 @@ class Type(Scope):
             return
         self.inherit_version = inherit_version
         self.inherit_var = find_in_scope(self.parent, self.inherit, obj_tree)
+        # Members inherited from a parent type that is gone must not survive
+        self.in_children = []
         if self.inherit_var is not None:
             self._resolve_inherit_parent(obj_tree, inherit_version)
 
